@@ -74,7 +74,7 @@ def gen_movies(rng, tier):
             for t in chosen:
                 n = rng.choice([0, 1, 2, 3, 5])
                 per = rng.random() < 0.5
-                tf = {"track_id": t["id"], "base": rng.choice(bases), "tfhd_dur": rng.choice([None, None, 20, 1001, 1 << 29, 1 << 31, (1 << 32) - 1]), "tfdt": clock[t["id"]],
+                tf = {"track_id": t["id"], "base": rng.choice(bases), "tfhd_dur": rng.choice([None, None, 20, 1001, 0, 0, 1 << 29, 1 << 31, (1 << 32) - 1]), "tfdt": clock[t["id"]],
                       "tfdt_v": 1 if clock[t["id"]] >= (1 << 32) else rng.choice([0, 1]), "durations": [rng.choice([0, 1, 33, 4000]) for _ in range(n)] if per else None,
                       "sizes": [rng.choice([0, 1, 2, 9, 60]) for _ in range(n)], "cts": [rng.choice([0, 7, -7, 2 ** 31 - 1, -2 ** 31]) for _ in range(n)] if rng.random() < 0.5 else None,
                       "with_offset": True, "trun": rng.random() < 0.85, "k0": cnt[t["id"]], "moof_flag": rng.random() < 0.4}
